@@ -1,6 +1,581 @@
 package checks
 
-import "verif/core"
+import (
+	"fmt"
+	"os"
+	"path/filepath"
+	"strings"
 
-// c19Dynamic: grammar sentences replayed on the generated Go parser (step 3). Filled in below.
-func c19Dynamic(ctx *core.Ctx) {}
+	"github.com/antlr4-go/antlr/v4"
+
+	parser "github.com/openfga/language/pkg/go/gen"
+
+	"verif/core"
+	"verif/gen"
+	"verif/ref"
+	"verif/rt"
+)
+
+// C19, step 3: bind the grammar text, the serialised automata and the generated
+// Go lexer/parser to each other without the ANTLR tool. Sentences derived from
+// the .g4 files (and all their single-token mutations) are decided by (i) a
+// recogniser interpreting OpenFGAParser.g4, (ii) an interpreter running the
+// deserialised parser ATN and (iii) the generated Go parser fed with exactly
+// that token sequence; all three must agree and on acceptance the Go parse tree
+// must equal the derivation tree. Lexeme strings are tokenised by a reference
+// lexer interpreting OpenFGALexer.g4 and by the generated Go lexer.
+
+type c19DynCase struct {
+	Sentence []string `json:"sentence,omitempty"`
+	Text     string   `json:"text,omitempty"`
+}
+
+type countingListener struct {
+	*antlr.DefaultErrorListener
+	n     int
+	first string
+}
+
+func (c *countingListener) SyntaxError(_ antlr.Recognizer, _ interface{}, line, column int, msg string, _ antlr.RecognitionException) {
+	if c.n == 0 {
+		c.first = fmt.Sprintf("%d:%d %s", line, column, msg)
+	}
+	c.n++
+}
+
+// listSource feeds a fixed token list to the parser; it embeds a real lexer so
+// that it satisfies antlr.TokenSource (which has unexported methods).
+type listSource struct {
+	*parser.OpenFGALexer
+	toks []antlr.Token
+	i    int
+}
+
+func (l *listSource) NextToken() antlr.Token {
+	if l.i < len(l.toks) {
+		t := l.toks[l.i]
+		l.i++
+		return t
+	}
+	return l.toks[len(l.toks)-1]
+}
+
+// goParse runs the generated parser's start rule on a token-type sequence.
+func goParse(types []int, names []string) (accepted bool, tree string, firstErr string, panicked any) {
+	defer func() {
+		if p := recover(); p != nil {
+			panicked = p
+		}
+	}()
+	lx := parser.NewOpenFGALexer(antlr.NewInputStream(""))
+	lx.RemoveErrorListeners()
+	pair := lx.GetTokenSourceCharStreamPair()
+	src := &listSource{OpenFGALexer: lx}
+	col := 0
+	for i, t := range types {
+		text := names[i]
+		tok := antlr.CommonTokenFactoryDEFAULT.Create(pair, t, text, antlr.TokenDefaultChannel, col, col+len(text)-1, 1, col)
+		tok.SetTokenIndex(i)
+		src.toks = append(src.toks, tok)
+		col += len(text) + 1
+	}
+	eof := antlr.CommonTokenFactoryDEFAULT.Create(pair, antlr.TokenEOF, "<EOF>", antlr.TokenDefaultChannel, col, col-1, 1, col)
+	src.toks = append(src.toks, eof)
+	stream := antlr.NewCommonTokenStream(src, antlr.TokenDefaultChannel)
+	p := parser.NewOpenFGAParser(stream)
+	p.RemoveErrorListeners()
+	el := &countingListener{DefaultErrorListener: antlr.NewDefaultErrorListener()}
+	p.AddErrorListener(el)
+	t := p.Main()
+	if el.n > 0 {
+		return false, "", el.first, nil
+	}
+	return true, goTree(t, p.GetRuleNames(), p.GetSymbolicNames()), "", nil
+}
+
+func goTree(t antlr.Tree, ruleNames, symbolic []string) string {
+	switch n := t.(type) {
+	case antlr.ErrorNode:
+		return "<error>"
+	case antlr.TerminalNode:
+		tt := n.GetSymbol().GetTokenType()
+		if tt == antlr.TokenEOF {
+			return "EOF"
+		}
+		if tt >= 0 && tt < len(symbolic) {
+			return symbolic[tt]
+		}
+		return fmt.Sprintf("<%d>", tt)
+	case antlr.RuleContext:
+		parts := []string{}
+		for _, c := range n.GetChildren() {
+			parts = append(parts, goTree(c, ruleNames, symbolic))
+		}
+		return "(" + ruleNames[n.GetRuleIndex()] + " " + strings.Join(parts, " ") + ")"
+	}
+	return "?"
+}
+
+// goLex runs the generated lexer.
+func goLex(text string) (toks []ref.LexToken, nerr int, panicked any) {
+	defer func() {
+		if p := recover(); p != nil {
+			panicked = p
+		}
+	}()
+	lx := parser.NewOpenFGALexer(antlr.NewInputStream(text))
+	lx.RemoveErrorListeners()
+	el := &countingListener{DefaultErrorListener: antlr.NewDefaultErrorListener()}
+	lx.AddErrorListener(el)
+	sym := lx.GetSymbolicNames()
+	for {
+		t := lx.NextToken()
+		if t.GetTokenType() == antlr.TokenEOF {
+			break
+		}
+		name := fmt.Sprintf("<%d>", t.GetTokenType())
+		if tt := t.GetTokenType(); tt > 0 && tt < len(sym) {
+			name = sym[tt]
+		}
+		ch := ""
+		if t.GetChannel() != antlr.TokenDefaultChannel {
+			ch = "HIDDEN"
+		}
+		toks = append(toks, ref.LexToken{Type: name, Text: t.GetText(), Channel: ch, Start: t.GetStart()})
+	}
+	return toks, el.n, nil
+}
+
+type c19Machines struct {
+	lexG, parG *ref.Grammar
+	rec        *ref.Recogniser
+	atn        *ref.ATNRecogniser
+	types      map[string]int
+	names      []string // symbolic names by type
+	refLexer   *ref.RefLexer
+}
+
+func c19Load(ctx *core.Ctx) *c19Machines {
+	repo := RepoRoot()
+	lg, err1 := ref.ParseG4(readFile(filepath.Join(repo, "OpenFGALexer.g4")))
+	pg, err2 := ref.ParseG4(readFile(filepath.Join(repo, "OpenFGAParser.g4")))
+	if err1 != nil || err2 != nil {
+		ctx.Violation("grammar-unreadable", fmt.Sprintf("the grammar files cannot be read by the reference reader: %v %v", err1, err2), c19Case{"g4"}, "", "")
+		return nil
+	}
+	a := loadArtefacts(repo, "go", false)
+	if len(a.errs) > 0 {
+		return nil // reported by the static part
+	}
+	at, err := ref.DeserializeATN(a.atn)
+	if err != nil {
+		return nil
+	}
+	m := &c19Machines{lexG: lg, parG: pg, types: map[string]int{}, names: a.symbolic}
+	for i, s := range a.symbolic {
+		if s != "null" {
+			m.types[s] = i
+		}
+	}
+	m.rec = ref.NewRecogniser(pg, a.symbolic)
+	m.atn = &ref.ATNRecogniser{A: at, Types: m.types}
+	m.refLexer = ref.NewRefLexer(lg)
+	return m
+}
+
+// c19Sentence decides one sentence three ways.
+func c19Sentence(ctx *core.Ctx, m *c19Machines, s []string, wantTree bool) (accepted bool, ok bool) {
+	ctx.Trans(1)
+	cs := c19DynCase{Sentence: s}
+	gAcc, gTree := m.rec.Parse("main", s)
+	aAcc, err := m.atn.Accepts(0, s)
+	if err != nil {
+		return false, true // token outside the vocabulary: not a sentence over this vocabulary
+	}
+	types := make([]int, len(s))
+	for i, n := range s {
+		types[i] = m.types[n]
+	}
+	pAcc, pTree, pErr, pn := goParse(types, s)
+	if pn != nil {
+		ctx.Violation("generated-parser-panics", fmt.Sprintf("the generated Go parser panicked on the token sequence %v: %v", s, pn), cs, "", fmt.Sprint(pn))
+		return false, false
+	}
+	if gAcc != aAcc {
+		ctx.Violation("grammar-and-atn-disagree", fmt.Sprintf("OpenFGAParser.g4 (interpreted) says accept=%v, the serialised parser ATN says accept=%v for %v: the generated automaton was not produced from this grammar text", gAcc, aAcc, s), cs, fmt.Sprint(gAcc), fmt.Sprint(aAcc))
+		return false, false
+	}
+	if gAcc != pAcc {
+		ctx.Violation("grammar-and-generated-parser-disagree", fmt.Sprintf("OpenFGAParser.g4 (interpreted) says accept=%v, the generated Go parser says accept=%v (%s) for %v", gAcc, pAcc, pErr, s), cs, fmt.Sprint(gAcc), fmt.Sprint(pAcc)+" "+pErr)
+		return false, false
+	}
+	if gAcc && wantTree {
+		if gTree == nil {
+			ctx.Count("derivation_tree_not_reconstructed", 1)
+		} else if gTree.String() != pTree {
+			ctx.Violation("parse-tree-differs", fmt.Sprintf("the generated Go parser builds another tree than the grammar's derivation for %v", s), cs, gTree.String(), pTree)
+			return true, false
+		}
+	}
+	if gAcc {
+		ctx.Flag("c19:sentence-accepted")
+	} else {
+		ctx.Flag("c19:sentence-rejected")
+	}
+	return gAcc, true
+}
+
+// deriveSentence writes one derivation of rule into out, drawing every decision from the choice machine.
+type deriver struct {
+	g     *ref.Grammar
+	out   []string
+	depth int
+	fail  bool
+	all   []string
+}
+
+func (d *deriver) alts(alts []*ref.Alt) {
+	c := 0
+	if len(alts) > 1 {
+		c = rt.Choose("G.alt", len(alts))
+	}
+	for _, e := range alts[c].Elems {
+		d.elem(e)
+		if d.fail {
+			return
+		}
+	}
+}
+
+func (d *deriver) elem(e *ref.Elem) {
+	switch e.Suffix {
+	case 0:
+		d.one(e)
+	case '?':
+		if rt.Choose("G.opt", 2) == 1 {
+			d.one(e)
+		}
+	case '*', '+':
+		if e.Suffix == '+' {
+			d.one(e)
+		}
+		for i := 0; i < 3 && !d.fail; i++ {
+			if rt.Choose("G.loop", 2) == 0 {
+				break
+			}
+			d.one(e)
+		}
+	}
+}
+
+func (d *deriver) one(e *ref.Elem) {
+	if d.fail {
+		return
+	}
+	switch e.Kind {
+	case ref.ETokenRef:
+		d.out = append(d.out, e.Name)
+	case ref.EEOF:
+		// appended by the recognisers
+	case ref.ERuleRef:
+		d.depth++
+		if d.depth > 12 {
+			d.fail = true
+			return
+		}
+		d.alts(d.g.ByName[e.Name].Alts)
+		d.depth--
+	case ref.EBlock:
+		d.alts(e.Alts)
+	case ref.ENot, ref.EAny:
+		// a representative of the complement: a few token kinds
+		reps := []string{"IDENTIFIER", "WHITESPACE", "LBRACE", "HASH", "STRING", "RPAREN"}
+		var ok []string
+		for _, r := range reps {
+			if e.Kind == ref.EAny || !notSetHas(e.Sub, r) {
+				ok = append(ok, r)
+			}
+		}
+		d.out = append(d.out, ok[rt.Choose("G.set", len(ok))])
+	}
+}
+
+func notSetHas(e *ref.Elem, t string) bool {
+	switch e.Kind {
+	case ref.ETokenRef:
+		return e.Name == t
+	case ref.EBlock:
+		for _, a := range e.Alts {
+			if len(a.Elems) == 1 && notSetHas(a.Elems[0], t) {
+				return true
+			}
+		}
+	}
+	return false
+}
+
+func c19Dynamic(ctx *core.Ctx) {
+	m := c19Load(ctx)
+	if m == nil {
+		return
+	}
+	seen := map[string]bool{}
+	var sentences [][]string
+	addSentence := func(s []string) bool {
+		k := strings.Join(s, " ")
+		if seen[k] {
+			return false
+		}
+		seen[k] = true
+		sentences = append(sentences, append([]string{}, s...))
+		return true
+	}
+	// (a) grammar-driven derivations within a deviation budget
+	budget := 3
+	if ctx.Thorough() {
+		budget = 4
+	}
+	var d *deriver
+	st := rt.Explore(rt.Config{Class: func(string) string { return "G" }, Budget: map[string]int{"G": budget}, MaxExec: 400000, Stop: ctx.Expired},
+		func() {
+			d = &deriver{g: m.parG}
+			d.alts(m.parG.ByName["main"].Alts)
+		},
+		func(pts []rt.Point) bool {
+			if !d.fail && len(d.out) <= 48 {
+				addSentence(d.out)
+			}
+			return true
+		})
+	if !st.Complete {
+		ctx.Cap("grammar-driven sentence enumeration hit its cap")
+	}
+	if ctx.Shard == 0 {
+		ctx.Count("grammar_derivations", st.Executions)
+	}
+	nGrammar := len(sentences)
+	// (b) the renderer's texts, tokenised by the generated lexer (default channel)
+	for i, tm := range gen.DSLModels(false) {
+		for si, stl := range uniformStyles() {
+			if si%3 != i%3 && si != 0 {
+				continue
+			}
+			var r *ref.Rendered
+			rt.Run(nil, nil, func() { r = ref.Render(tm.M, &ref.Layout{Style: stl}) })
+			toks, _, pn := goLex(r.Text)
+			if pn != nil {
+				continue
+			}
+			var s []string
+			for _, t := range toks {
+				if t.Channel == "" {
+					s = append(s, t.Type)
+				}
+			}
+			if len(s) <= 120 {
+				addSentence(s)
+			}
+		}
+	}
+	if ctx.Shard == 0 {
+		ctx.Count("sentences_from_grammar", nGrammar)
+		ctx.Count("sentences_from_rendered_texts", len(sentences)-nGrammar)
+	}
+	var kinds []string
+	for _, n := range m.names {
+		if n != "null" {
+			kinds = append(kinds, n)
+		}
+	}
+	for i, s := range sentences {
+		if !ctx.Mine(i) {
+			continue
+		}
+		if ctx.Expired() {
+			ctx.Cap("wall-clock cap: not all sentences replayed")
+			break
+		}
+		ctx.Eval(1)
+		acc, ok := c19Sentence(ctx, m, s, true)
+		if !ok {
+			return
+		}
+		if acc {
+			ctx.Nontrivial(strings.Join(s, " "))
+		}
+		// single-token mutations: every deletion; replacement and insertion of every token kind at every position
+		// (quick: for every 8th sentence and sentences of at most 40 tokens)
+		if len(s) > 40 || (!ctx.Thorough() && i%8 != 0) {
+			continue
+		}
+		mut := make([]string, 0, len(s)+1)
+		for p := 0; p <= len(s); p++ {
+			if p < len(s) {
+				mut = append(append(mut[:0], s[:p]...), s[p+1:]...)
+				if _, ok := c19Sentence(ctx, m, mut, true); !ok {
+					return
+				}
+			}
+			for _, k := range kinds {
+				if p < len(s) && k != s[p] {
+					mut = append(append(append(mut[:0], s[:p]...), k), s[p+1:]...)
+					if _, ok := c19Sentence(ctx, m, mut, true); !ok {
+						return
+					}
+				}
+				mut = append(append(append(mut[:0], s[:p]...), k), s[p:]...)
+				if _, ok := c19Sentence(ctx, m, mut, true); !ok {
+					return
+				}
+			}
+		}
+		ctx.Flag("c19:mutations")
+	}
+	c19Subtrees(ctx, m, sentences[nGrammar:])
+	c19Lexer(ctx, m)
+	if ctx.Shard == 0 && ctx.WantSample() && len(sentences) > 0 {
+		ctx.Sample(map[string]any{"sentence_from_grammar": sentences[min(len(sentences)-1, 40)]})
+	}
+}
+
+// c19Subtrees: in a set of base sentences, the yield of every rule occurrence is replaced by every derivation of
+// that rule within a deviation budget (as the grammar text reads now): each alternative of each rule is exercised
+// in real contexts, so that an edit of the grammar text that was not regenerated shows as a disagreement.
+func c19Subtrees(ctx *core.Ctx, m *c19Machines, pool [][]string) {
+	// base sentences: the longest distinct accepted ones, spread over the pool
+	var bases [][]string
+	step := len(pool)/24 + 1
+	if ctx.Thorough() {
+		step = len(pool)/96 + 1
+	}
+	for i := 0; i < len(pool); i += step {
+		if len(pool[i]) <= 90 {
+			bases = append(bases, pool[i])
+		}
+	}
+	budget := 2
+	// derivations per rule are the same for every occurrence: enumerate once
+	derivs := map[string][][]string{}
+	for _, r := range m.parG.Rules {
+		var d *deriver
+		seen := map[string]bool{}
+		rt.Explore(rt.Config{Class: func(string) string { return "G" }, Budget: map[string]int{"G": budget}, MaxExec: 20000},
+			func() {
+				d = &deriver{g: m.parG}
+				d.alts(r.Alts)
+			},
+			func(pts []rt.Point) bool {
+				if !d.fail && len(d.out) <= 24 {
+					k := strings.Join(d.out, " ")
+					if !seen[k] {
+						seen[k] = true
+						derivs[r.Name] = append(derivs[r.Name], append([]string{}, d.out...))
+					}
+				}
+				return true
+			})
+		if ctx.Shard == 0 {
+			ctx.Count("subtree_derivations_"+r.Name, len(derivs[r.Name]))
+		}
+	}
+	k := 0
+	for _, b := range bases {
+		acc, tree := m.rec.Parse("main", b)
+		if !acc || tree == nil {
+			continue
+		}
+		var nodes []*ref.Node
+		var walk func(n *ref.Node)
+		walk = func(n *ref.Node) {
+			if n.Rule != "" {
+				nodes = append(nodes, n)
+				for _, c := range n.Ch {
+					walk(c)
+				}
+			}
+		}
+		walk(tree)
+		for _, n := range nodes {
+			if n.Rule == "main" {
+				continue
+			}
+			for _, d := range derivs[n.Rule] {
+				k++
+				if !ctx.Mine(k) {
+					continue
+				}
+				if ctx.Expired() {
+					ctx.Cap("wall-clock cap in subtree replacement")
+					return
+				}
+				end := n.End
+				if end > len(b) {
+					end = len(b)
+				}
+				s := append(append(append([]string{}, b[:n.Start]...), d...), b[end:]...)
+				ctx.Eval(1)
+				if _, ok := c19Sentence(ctx, m, s, true); !ok {
+					return
+				}
+				ctx.Flag("c19:subtree-replacement")
+			}
+		}
+	}
+}
+
+// c19Lexer compares the reference lexer (OpenFGALexer.g4 interpreted) with the generated Go lexer.
+var c19LexAlphabet = []string{
+	"a", "B", "_", "1", "0x", ".", " ", "\t", "\n", "\r", "\f", "#", ":", ",", "[", "]", "(", ")", "<", ">", "=", "==", "!=", "<=", "&&", "||", "!", "{", "}", "-", "/", "*", "%", "+", "?",
+	"\"", "'", "\\", "e", "u", "r", "b", "é", "$", "//", "and", "or", "but not", "but", "from", "type", "condition", "model", "schema", "module", "extend", "relations", "relation", "define", "with", "in", "true", "null", "int", "list", "map", "1.1",
+}
+
+func c19Lexer(ctx *core.Ctx, m *c19Machines) {
+	k := 2
+	if ctx.Thorough() {
+		k = 3
+	}
+	contexts := []string{"", "condition ", "condition c(", "condition c(x: int) {"}
+	base := 1 << 24
+	for ci, cx := range contexts {
+		for n := 0; n <= k; n++ {
+			gen.LexemeStrings(c19LexAlphabet, n, func(i int, s string) {
+				if !ctx.Mine(base + i) {
+					return
+				}
+				text := cx + s
+				if strings.Contains(text, "\"\"\"") || strings.Contains(text, "'''") {
+					return // triple-quoted strings use non-greedy loops, which the reference lexer does not judge
+				}
+				ctx.Trans(1)
+				want, werrs, undecided := m.refLexer.Lex(text)
+				if undecided {
+					ctx.Count("lexer_inputs_not_judged", 1)
+					return
+				}
+				got, nerr, pn := goLex(text)
+				cs := c19DynCase{Text: text}
+				if pn != nil {
+					ctx.Violation("generated-lexer-panics", fmt.Sprintf("the generated Go lexer panicked on %q: %v", text, pn), cs, "", fmt.Sprint(pn))
+					return
+				}
+				var a, b []string
+				for _, t := range want {
+					a = append(a, fmt.Sprintf("%s%s=%q", t.Type, t.Channel, t.Text))
+				}
+				for _, t := range got {
+					b = append(b, fmt.Sprintf("%s%s=%q", t.Type, t.Channel, t.Text))
+				}
+				if strings.Join(a, " ") != strings.Join(b, " ") || len(werrs) != nerr {
+					ctx.Violation("lexer-differs-from-grammar", fmt.Sprintf("%q: OpenFGALexer.g4 (interpreted) gives %v with %d errors, the generated Go lexer gives %v with %d errors", text, a, len(werrs), b, nerr),
+						cs, strings.Join(a, " "), strings.Join(b, " "))
+					return
+				}
+				ctx.Flag("c19:lexer-compared")
+			})
+			base += gen.Pow(len(c19LexAlphabet), n)
+		}
+		_ = ci
+	}
+}
+
+var _ = os.Getenv
